@@ -24,7 +24,7 @@ RULE = ("Model level: Hypothesis draws T=1..3 distinct blob templates, a rotatio
         "rotation features the searched rotation. Grid level (enumerated): normalize_rotations of (max, step) ranges "
         "against the documented grid (size, identity, z-major order, external single-axis rotations). "
         "Non-trivial = T > 1 and K > 1 with k != identity.")
-TOLERANCES = {"rotation": "1e-6 rad (must be exactly a candidate)", "shift": "0.15 px", "score optimality": "1e-4",
+TOLERANCES = {"rotation": "1e-6 rad (must be exactly a candidate)", "shift": "0.15 px", "score optimality": "2e-3 relative",
               "grid": "1e-6 rad"}
 ASSUMPTIONS = ["rotation sets contain the identity (documented precondition) and have members >= 25 deg apart",
                "FSC is not used here (band-limited blob templates are degenerate for FSC, see C04)",
@@ -123,7 +123,9 @@ def judge_model(d):
                             r, _ = run_model(Model, [templates[i]], pair, sub, ms, mask)
                     best = max(best, float(r.score))
         sc = float(res.score)
-        if not abs(sc - best) <= 1e-4 * max(1.0, abs(best)):
+        # 2e-3: the fill value used when rotating templates is a percentile of the whole template stack, so a
+        # candidate evaluated in a single-template model is rotated with a marginally different fill value
+        if not abs(sc - best) <= 2e-3 * max(1.0, abs(best)):
             out.append(viol("C06/not-the-best-score", f"{tag}: reported score {sc:.6g} but the best candidate evaluated alone scores {best:.6g}"))
     # metamorphic: permute templates and rotations
     if T > 1 or K > 1:
